@@ -215,6 +215,16 @@ pub(crate) fn serialize_cdata<'a, N: Normalizer>(
                 }
                 closing_square_brackets_seen = 0;
             }
+            '\r' => {
+                // push any closing square brackets we've seen
+                for _ in 0..closing_square_brackets_seen {
+                    result.push(']');
+                }
+                closing_square_brackets_seen = 0;
+                // a carriage return inside a CDATA section would be read back as a
+                // line feed, so it is written as a character reference between sections
+                result.push_str("]]>&#xD;<![CDATA[");
+            }
             _ => {
                 // push any closing square brackets we've seen
                 for _ in 0..closing_square_brackets_seen {
